@@ -108,7 +108,7 @@ fn judge_total(acc: &mut Acc, s: &dyn Subject, class: &str, bytes: &[u8], judge:
 }
 
 /// C06: real Ok(v) implies strict reference Ok(v)
-fn judge_content(acc: &mut Acc, s: &dyn Subject, ty: &Ty, class: &str, bytes: &[u8], real: &Call<Val>) {
+fn judge_content(acc: &mut Acc, check: &str, s: &dyn Subject, ty: &Ty, class: &str, bytes: &[u8], real: &Call<Val>) {
     let reference = ref_decode(ty, bytes);
     if let Err(e) = &reference {
         if e.kind == ErrKind::Unsupported {
@@ -126,15 +126,15 @@ fn judge_content(acc: &mut Acc, s: &dyn Subject, ty: &Ty, class: &str, bytes: &[
                     acc.count("accepted_and_agreed");
                 }
                 (Ok(a), Ok(b)) => acc.violation(
-                    format!("C06|{}|accepted_with_other_value|{class}", s.id()),
-                    replay_decode("C06", s.id(), bytes, class).with("real", J::s(a.render(300))).with("reference", J::s(b.render(300))),
+                    format!("{check}|{}|accepted_with_other_value|{class}", s.id()),
+                    replay_decode(check, s.id(), bytes, class).with("real", J::s(a.render(300))).with("reference", J::s(b.render(300))),
                 ),
                 _ => acc.count("model_gap"),
             }
         }
         (Call::Ok(v), Err(e)) => acc.violation(
-            format!("C06|{}|accepted_but_framing_is_inconsistent|{class}|{:?}", s.id(), kind_name(&e.kind)),
-            replay_decode("C06", s.id(), bytes, class)
+            format!("{check}|{}|accepted_but_framing_is_inconsistent|{class}|{:?}", s.id(), kind_name(&e.kind)),
+            replay_decode(check, s.id(), bytes, class)
                 .with("real", J::s(v.render(300)))
                 .with("reference_rejects", J::s(format!("{:?}: {}", e.kind, e.msg))),
         ),
@@ -178,6 +178,7 @@ struct Plan {
 }
 
 fn hostile_for_subject(ctx: &mut Ctx, acc: &mut Acc, id: &str, plan: &Plan, c05: bool, c06: bool) {
+    let check_name = ctx.check.clone();
     let s = ctx.reg.get(id).unwrap();
     let ty = s.ty();
     let tag = if c05 { TAG_C05 } else { TAG_C06 };
@@ -186,7 +187,7 @@ fn hostile_for_subject(ctx: &mut Ctx, acc: &mut Acc, id: &str, plan: &Plan, c05:
             let shown = if bytes.len() > 4096 { &bytes[..4096] } else { bytes };
             ctx_crumb.set(&format!(
                 "{{\"check\":\"{}\",\"subject\":{},\"what\":\"{}\",\"len\":{},\"hex\":\"{}\"}}",
-                if c05 { "C05" } else { "C06" },
+                check_name,
                 J::s(id).to_string(),
                 class,
                 bytes.len(),
@@ -195,7 +196,7 @@ fn hostile_for_subject(ctx: &mut Ctx, acc: &mut Acc, id: &str, plan: &Plan, c05:
         }
         let j = judge_total(acc, s, class, bytes, c05);
         if c06 {
-            judge_content(acc, s, &ty, class, bytes, &j.real);
+            judge_content(acc, &check_name, s, &ty, class, bytes, &j.real);
         }
         let nontrivial = if c05 { true } else { j.real.is_ok() };
         acc.case(if nontrivial { Some(sig(&[id.as_bytes(), bytes])) } else { None });
@@ -323,7 +324,7 @@ fn pinned_cases(ctx: &mut Ctx, acc: &mut Acc, c05: bool, c06: bool) {
         let s = ctx.reg.get(id).unwrap();
         let j = judge_total(acc, s, "pinned", &bytes, c05);
         if c06 {
-            judge_content(acc, s, &s.ty(), "pinned", &bytes, &j.real);
+            judge_content(acc, &ctx.check.clone(), s, &s.ty(), "pinned", &bytes, &j.real);
         }
         acc.case(Some(sig(&[id.as_bytes(), &bytes])));
         acc.count("pinned_cases");
@@ -375,4 +376,96 @@ pub fn c06(ctx: &mut Ctx, acc: &mut Acc) -> i32 {
     }
     let _ = TAMPER_CLASSES;
     0
+}
+
+/// C19 part 2: the decode paths implemented with unsafe code (byte vectors, `Bytes`, arrays, big integers) and the types
+/// that were repaired (fixed-size arrays): valid, wrong-count, truncated and tampered data; every Ok value is fully
+/// traversed (to_val) and compared with the strict reference decoder. Meant for the sanitizer lanes and Miri.
+pub fn c19(ctx: &mut Ctx, acc: &mut Acc) -> i32 {
+    pinned_cases(ctx, acc, false, true);
+    let ids: Vec<String> = ctx
+        .my_subjects(|s| s.ty().any(&mut |t| matches!(t, Ty::Array(_, _) | Ty::ByteArray(_) | Ty::Bytes | Ty::BigInt), &mut Vec::new()))
+        .iter()
+        .map(|s| s.id().to_string())
+        .collect();
+    for id in ids {
+        let plan = Plan {
+            exhaustive_len: if cfg!(miri) { 0 } else { 2 },
+            tamper_values: ctx.n(60, 1500),
+            tampers_per_value: if cfg!(miri) { 4 } else { 20 },
+            random: ctx.n(100, 3000),
+        };
+        // budgets and panics are C05's business: here the monitors are the sanitizer of the lane and the content oracle
+        hostile_for_subject(ctx, acc, &id, &plan, false, true);
+        // valid data through the same paths
+        let s = ctx.reg.get(&id).unwrap();
+        let ty = s.ty();
+        for idx in 0..ctx.n(60, 1500) {
+            let mut rng = ctx.rng_for(0xC19, &id, idx);
+            let v = gen_val(&ty, &mut rng, &ctx.gen);
+            let Some((_x, bytes)) = encode_case(acc, s, &v) else { continue };
+            let j = judge_total(acc, s, "valid", &bytes, false);
+            judge_content(acc, "C19", s, &ty, "valid", &bytes, &j.real);
+            acc.case(Some(sig(&[id.as_bytes(), &bytes])));
+        }
+        acc.count("types_with_unsafe_decode_paths");
+    }
+    0
+}
+
+/// C05 (e): one nesting-depth probe, run in its own process on a thread with the default 8 MiB stack
+pub fn depthprobe(ctx: &mut Ctx) -> i32 {
+    let subject = ctx.extra.get("subject").cloned().unwrap_or_else(|| "DeepRec".to_string());
+    let depth: usize = ctx.extra.get("depth").and_then(|d| d.parse().ok()).unwrap_or(100);
+    let mut bytes = Vec::with_capacity(depth * 3 + 8);
+    match subject.as_str() {
+        "DeepRec" => {
+            for _ in 0..depth {
+                bytes.extend_from_slice(&[0, 7, 1]);
+            }
+            bytes.extend_from_slice(&[0, 7, 0]);
+        }
+        "DeepVec" => {
+            for _ in 0..depth {
+                bytes.extend_from_slice(&[0, 2]);
+            }
+            bytes.extend_from_slice(&[0, 0]);
+        }
+        "DeepEnum" => {
+            for _ in 0..depth {
+                bytes.extend_from_slice(&[0, 1, 0]);
+            }
+            bytes.extend_from_slice(&[0, 0, 0, 0, 9]);
+        }
+        other => {
+            println!("DEPTHPROBE unknown subject {other}");
+            return 2;
+        }
+    }
+    ctx.crumb(&subject, &format!("depth {depth}"), &bytes[..bytes.len().min(64)]);
+    let Some(s) = ctx.reg.get(&subject) else {
+        println!("DEPTHPROBE unknown subject {subject}");
+        return 2;
+    };
+    let outcome = std::thread::scope(|sc| {
+        std::thread::Builder::new()
+            .stack_size(8 << 20)
+            .spawn_scoped(sc, || {
+                let (c, _) = sbase::monitored(None, || {
+                    let v = s.decode(&bytes)?;
+                    std::mem::forget(v); // releasing a deep value is the caller's recursion, not the decoder's
+                    Ok(())
+                });
+                c.class()
+            })
+            .expect("spawn")
+            .join()
+            .unwrap_or_else(|_| "thread panicked".to_string())
+    });
+    println!("DEPTHPROBE subject={subject} depth={depth} input_len={} outcome={outcome}", bytes.len());
+    if outcome == "Ok" {
+        0
+    } else {
+        1
+    }
 }
